@@ -1,5 +1,159 @@
 /-
-C14 — property theorems (stub: not built yet).
+C14 — Timeouts fire, only when due, and the clock cleans up.
+
+*Partial* property: the wall clock and the scheduler are assumptions.  What is proved is the logic of
+the clock state machine `RegexVerif.Clock` (Model/Clock.lean), a line-by-line model of fastclock.go,
+under the timing assumption that one iteration of runClock takes between `period` and `period + eps`
+(`eps` is a parameter) and that makeDeadline executes atomically.  The model is tied to the source by
+the regenerated facts `Generated.Clock` (constants and the statement skeleton of every function that
+is modelled) and to the running code by leg H.
 -/
+import RegexVerif.Lemmas.Clock
+import RegexVerif.Generated.Clock
+
 namespace RegexVerif.Props.C14
+open RegexVerif RegexVerif.Clock RegexVerif.Lemmas.Clock
+
+/-! ### obligations regenerated from the Go source (`Generated.Clock`) -/
+
+/-- The constants of fastclock.go are the ones the model uses: `durationToTicks` shifts right by 20,
+    `extendClock` keeps the clock alive one second (`time.Second`) beyond the largest deadline, and the
+    default period is 100 ms. -/
+theorem source_constants :
+    Generated.Clock.tickShift = 20 ∧ (2 : Int) ^ Generated.Clock.tickShift = tickNs ∧
+    Generated.Clock.slopNs = goSlop ∧ Generated.Clock.defaultClockPeriodNs = goDefaultPeriod ∧
+    Generated.Clock.clockPeriodInit = "DefaultClockPeriod" := by decide
+
+/-- `makeDeadline`, `extendClock` and `deadlineTicks` are, statement for statement, what
+    `Clock.makeDeadline`, `Clock.extendClock` and `Clock.deadlineTicks` model: the order of the reads of
+    `current`/`clockEnd`, the refresh of `current` under `!running && !start.IsZero()`, the recomputed
+    `end`, the `time.Second` slop, `running = true; go runClock()`. -/
+theorem source_makeDeadline :
+    Generated.Clock.makeDeadlineSrc =
+      ["{",
+       "end := fast.current.read() + deadlineTicks(d)",
+       "if end > fast.clockEnd.read() {",
+       "fast.mu.Lock()",
+       "if !fast.running && !fast.start.IsZero() {",
+       "fast.current.write(durationToTicks(time.Since(fast.start)))",
+       "end = fast.current.read() + deadlineTicks(d)",
+       "}",
+       "fast.mu.Unlock()",
+       "extendClock(end)",
+       "}",
+       "return end",
+       "}"] ∧
+    Generated.Clock.extendClockSrc =
+      ["{",
+       "fast.mu.Lock()",
+       "defer fast.mu.Unlock()",
+       "if fast.start.IsZero() {",
+       "fast.start = time.Now()",
+       "}",
+       "if shutdown := end + durationToTicks(time.Second); shutdown > fast.clockEnd.read() {",
+       "fast.clockEnd.write(shutdown)",
+       "}",
+       "if !fast.running {",
+       "fast.running = true",
+       "go runClock()",
+       "}",
+       "}"] ∧
+    Generated.Clock.deadlineTicksSrc =
+      ["{",
+       "if d > math.MaxInt64-clockPeriod {",
+       "return durationToTicks(math.MaxInt64)",
+       "}",
+       "return durationToTicks(d + clockPeriod)",
+       "}"] ∧
+    Generated.Clock.durationToTicksSrc = ["{", "return fasttime(d) >> 20", "}"] ∧
+    Generated.Clock.reachedSrc = ["{", "return fast.current.read() >= t", "}"] := by decide
+
+/-- `runClock` and `stopClock` are what `Clock.tick` and `Clock.stop` model: the loop condition
+    `current <= clockEnd` evaluated right after `current` is written, `running = false` on exit; stop
+    writes `clockEnd = 0` only when a clock is running. -/
+theorem source_runClock :
+    Generated.Clock.runClockSrc =
+      ["{",
+       "fast.mu.Lock()",
+       "defer fast.mu.Unlock()",
+       "for fast.current.read() <= fast.clockEnd.read() {",
+       "fast.mu.Unlock()",
+       "time.Sleep(clockPeriod)",
+       "fast.mu.Lock()",
+       "newTime := durationToTicks(time.Since(fast.start))",
+       "fast.current.write(newTime)",
+       "}",
+       "fast.running = false",
+       "}"] ∧
+    Generated.Clock.stopClockSrc =
+      ["{",
+       "fast.mu.Lock()",
+       "if fast.running {",
+       "fast.clockEnd.write(fasttime(0))",
+       "}",
+       "fast.mu.Unlock()",
+       "isRunning := true",
+       "for isRunning {",
+       "time.Sleep(clockPeriod / 2)",
+       "fast.mu.Lock()",
+       "isRunning = fast.running",
+       "fast.mu.Unlock()",
+       "}",
+       "}"] ∧
+    Generated.Clock.stopTimeoutClockSrc = ["{", "stopClock()", "}"] ∧
+    Generated.Clock.setTimeoutCheckPeriodSrc = ["{", "clockPeriod = d", "}"] := by decide
+
+/-- The runner side is what `Clock.startWatch` and `Clock.reached` model: MatchTimeout = MaxInt64
+    switches checking off, otherwise one `makeDeadline(timeout)` per scan, and a timeout error is
+    returned exactly when `deadline.reached()`; the scan loop checks once per candidate and the
+    interpreter loop has one check per step. -/
+theorem source_runner :
+    Generated.Clock.scanTimeoutSrc =
+      ["r.timeout = timeout",
+       "r.ignoreTimeout = (time.Duration(math.MaxInt64) == timeout)",
+       "call startTimeoutWatch",
+       "call CheckTimeout"] ∧
+    Generated.Clock.startTimeoutWatchSrc =
+      ["{", "if r.ignoreTimeout {", "return", "}", "r.deadline = makeDeadline(r.timeout)", "}"] ∧
+    Generated.Clock.checkTimeoutSrc =
+      ["{",
+       "if r.ignoreTimeout || !r.deadline.reached() {",
+       "return nil",
+       "}",
+       "return fmt.Errorf(\"match timeout after %v on input `%v`\", r.timeout, string(r.Runtext))",
+       "}"] ∧
+    Generated.Clock.executeCheckTimeoutCalls = 1 := by decide
+
+/-! ### the deadline arithmetic (fix 45a1777) -/
+
+/-- **No wrap-around.** For every clock period `0 ≤ period ≤ MaxInt64` and all timeouts
+    `0 ≤ d ≤ d' ≤ MaxInt64`: the argument handed to `durationToTicks` stays within int64
+    (`effDur ≤ MaxInt64`, so the Go addition `d + clockPeriod` is only evaluated when it cannot
+    overflow), the tick count is non-negative, monotone in `d`, at least the tick count of `d` itself
+    and at most `durationToTicks(MaxInt64)`.  (Go: `deadlineTicks`.) -/
+theorem deadline_no_wrap (period d d' : Int) (hp : 0 ≤ period) (hp' : period ≤ maxInt64)
+    (hd : 0 ≤ d) (hdd : d ≤ d') (hd' : d' ≤ maxInt64) :
+    deadlineTicks period d = ticks (effDur period d) ∧ d ≤ effDur period d ∧ effDur period d ≤ maxInt64 ∧
+    0 ≤ deadlineTicks period d ∧ ticks d ≤ deadlineTicks period d ∧
+    deadlineTicks period d ≤ deadlineTicks period d' ∧ deadlineTicks period d' ≤ ticks maxInt64 := by
+  unfold deadlineTicks effDur
+  simp only [ticks_eq]
+  unfold maxInt64 at *
+  refine ⟨?_, ?_, ?_, ?_, ?_, ?_, ?_⟩ <;> (repeat' split) <;> omega
+
+/-- the hypotheses are satisfiable and the saturating branch is exercised: period 1 ms, d = MaxInt64-1 -/
+example : deadlineTicks 1000000 (maxInt64 - 1) = 8796093022207 ∧ deadlineTicks 1000000 50000000 = 48 := by decide
+
+/-- **The defect before 45a1777**, documented: with the old formula
+    `durationToTicks(d + clockPeriod)` (int64 addition) a timeout within one period of MaxInt64 gives a
+    *negative* tick count, so the deadline lies in the past and the match times out at once; the tick
+    count is not monotone in `d`. -/
+example : oldDeadlineTicks 1000000 (maxInt64 - 1) = -8796093022208 := by decide
+example : ¬ (∀ d, 0 ≤ d → d ≤ maxInt64 → 0 ≤ oldDeadlineTicks 100000000 d) := by
+  intro h; exact absurd (h (maxInt64 - 1) (by decide) (by decide)) (by decide)
+example : ¬ (∀ d d', 0 ≤ d → d ≤ d' → d' ≤ maxInt64 → oldDeadlineTicks 1000000 d ≤ oldDeadlineTicks 1000000 d') := by
+  intro h; exact absurd (h 0 (maxInt64 - 1) (by decide) (by decide) (by decide)) (by decide)
+/-- where no wrap occurs the old and the new formula agree -/
+example : ∀ d ∈ [0, 1, 20000000, 3600000000000, maxInt64 - 1000000], oldDeadlineTicks 1000000 d = deadlineTicks 1000000 d := by decide
+
 end RegexVerif.Props.C14
